@@ -238,3 +238,135 @@ Theorem C18_compresses_when_eligible :
   applied (gzip_serve dexts cs cfgs path ae s) = [GZIP].
 Proof. exact compresses_when_eligible. Qed.
 Print Assumptions C18_compresses_when_eligible.
+
+(* ---- 6. precompressed siblings only in a coding the request offers ----
+   The file server's test (fileserver.go:serveFile), exactly: the header is split at commas and a
+   coding counts as accepted iff one element, stripped of surrounding white space by
+   strings.TrimSpace, IS the coding's name (C18_static_sibling_choice_sound above).  So an element
+   that carries any parameter never matches: "gzip;q=0" refuses, and "gzip;q=1" is not understood
+   either (the identity file is served).  Against the RFC 7231 reading ([offers_coding]: comma
+   list, name before ';', case-insensitive, OWS = SP / HTAB, q=0 = not acceptable, "*" for
+   unlisted codings): for ALL Accept-Encoding values made of printable ASCII and HTAB, all sets of
+   siblings on disk ([avail]) and the priority table of the current sources, a sibling is served
+   only in a coding the request offers. *)
+Theorem C18_sibling_only_if_offered_partial :
+  forall ae avail name ext,
+  select_sibling gen_c18_static_priority ae avail = Some (name, ext) ->
+  forallb vis ae = true ->
+  avail ext = true /\ offers_coding ae name = true.
+Proof.
+  intros ae avail name ext H Hv. exact (sibling_only_if_offered_table ae avail name ext H (vis_plain_ows ae Hv)).
+Qed.
+Print Assumptions C18_sibling_only_if_offered_partial.
+
+Example C18_sibling_only_if_offered_nonvacuous :
+  forallb vis (bs "br;q=0, zstd ,	gzip;q=0.5") = true /\
+  select_sibling gen_c18_static_priority (bs "br;q=0, zstd ,	gzip;q=0.5") (fun _ => true) = Some (bs "zstd", bs ".zst") /\
+  (* the full 8 x 8 matrix: siblings on disk x codings offered (plain spelling) *)
+  forallb (fun sib => forallb (fun off =>
+      let ae := (if N.testbit off 2 then bs "zstd," else []) ++ (if N.testbit off 1 then bs " br ," else []) ++
+                (if N.testbit off 0 then bs "gzip" else bs "identity") in
+      let avail e := (beq e (bs ".zst") && N.testbit sib 2) || (beq e (bs ".br") && N.testbit sib 1) ||
+                     (beq e (bs ".gz") && N.testbit sib 0) in
+      match select_sibling gen_c18_static_priority ae avail with
+      | Some (n, e) => offers_coding ae n && avail e
+      | None => forallb (fun ne => negb (offers_coding ae (fst ne) && avail (snd ne))) gen_c18_static_priority
+      end) [0; 1; 2; 3; 4; 5; 6; 7]) [0; 1; 2; 3; 4; 5; 6; 7] = true.
+Proof. vm_compute. repeat split; reflexivity. Qed.
+
+(* every table: names that are lower-case tokens without ';', header elements with SP / HTAB
+   around them only *)
+Theorem C18_sibling_only_if_offered_any_table_partial :
+  forall prio ae avail name ext,
+  select_sibling prio ae avail = Some (name, ext) ->
+  plain_ows ae -> ~ In 59 name -> to_lower name = name ->
+  avail ext = true /\ offers_coding ae name = true.
+Proof. exact sibling_only_if_offered. Qed.
+Print Assumptions C18_sibling_only_if_offered_any_table_partial.
+
+Example C18_sibling_only_if_offered_any_table_nonvacuous :
+  plain_ows (bs "br, gzip;q=0") /\ ~ In 59 (bs "br") /\ to_lower (bs "br") = bs "br" /\
+  select_sibling priority_snapshot (bs "br, gzip;q=0") (fun _ => true) = Some (bs "br", bs ".br").
+Proof.
+  split; [apply vis_plain_ows; vm_compute; reflexivity|].
+  split; [intros H; vm_compute in H; intuition discriminate|]. split; vm_compute; reflexivity.
+Qed.
+
+(* q-value spellings: with every sibling on disk, a request that names a coding with any
+   parameter gets the identity file *)
+Example C18_sibling_parameter_spellings_refused :
+  forallb (fun c =>
+    forallb (fun suffix =>
+      match select_sibling gen_c18_static_priority (fst c ++ suffix) (fun _ => true) with None => true | Some _ => false end)
+      [bs ";q=0"; bs "; q=0"; bs ";q=0.0"; bs " ;q=0.000"; bs ";Q=0"; bs ";q=0, identity"; bs ";q=1"; bs ";q=0.5"])
+    gen_c18_static_priority = true.
+Proof. exact sibling_param_spellings_refused. Qed.
+
+(* Without the condition on the header bytes the statement is false of the code: TrimSpace also
+   strips Unicode white space, so "gzip<U+00A0>" — which names no coding in the RFC reading — gets
+   the .gz sibling (replayed on the real server: corpus/C18/f7_unicode_space.json, finding F-C18-7) *)
+Theorem C18_sibling_only_if_offered_refuted :
+  exists ae name ext,
+    select_sibling gen_c18_static_priority ae (fun e => beq e (bs ".gz")) = Some (name, ext) /\
+    offers_coding ae name = false.
+Proof. exact sibling_only_if_offered_refuted. Qed.
+Print Assumptions C18_sibling_only_if_offered_refuted.
+
+(* ---- 7. the pooled gzip writers under concurrency ----
+   [prun nput_code t] is the state after ANY sequence [t] of events of any number of concurrent
+   requests: PGet r k (request r fetches a writer: the k-th pooled one, or a new one), PWrite r b,
+   PFinish r err (Gzip.ServeHTTP returns; err = over the status >= 400 path; the deferred
+   putWriter hands the writer back once on every path), PDrop k (the runtime drops a pooled
+   writer).  Events that cannot happen (a second fetch, a write without writer, ...) are no-ops,
+   so every list is an execution and every interleaving is a list. *)
+
+(* linearity: in every reachable state no writer is owned by two requests, none is owned and
+   pooled at once, none is pooled twice *)
+Theorem C18_pool_writers_not_shared :
+  forall t : list pev,
+  let s := prun nput_code t in
+  (forall r1 r2 w, p_held s r1 = Some w -> p_held s r2 = Some w -> r1 = r2) /\
+  (forall r w, p_held s r = Some w -> ~ In w (p_pool s)) /\
+  NoDup (p_pool s).
+Proof. exact pool_writers_not_shared. Qed.
+Print Assumptions C18_pool_writers_not_shared.
+
+(* the writer a request holds is bound to that request's response, open, and holds exactly what
+   that request wrote *)
+Theorem C18_pool_held_writer_is_own :
+  forall (t : list pev) r w,
+  let s := prun nput_code t in
+  p_held s r = Some w -> p_dst s w = r /\ p_closed s w = false /\ p_buf s w = p_log s r.
+Proof. exact pool_held_writer_own. Qed.
+Print Assumptions C18_pool_held_writer_is_own.
+
+(* hence, whatever the other requests do meanwhile: a response receives nothing from the gzip
+   layer while its request runs, and once it has finished exactly one stream that holds exactly
+   its own writes, in order (no stream at all if it never fetched a writer) *)
+Theorem C18_pool_response_is_own_writes :
+  forall (t : list pev) r,
+  let s := prun nput_code t in
+  (p_done s r = false -> p_out s r = []) /\
+  (p_done s r = true -> p_out s r = if p_got s r then [rev (p_log s r)] else []).
+Proof. exact pool_response_own_writes. Qed.
+Print Assumptions C18_pool_response_is_own_writes.
+
+Example C18_pool_nonvacuous :
+  (* three overlapping requests, the third reuses the writer the first handed back on its error path *)
+  let t := [PGet 0 0; PGet 1 0; PWrite 0 [1]; PWrite 1 [2]; PFinish 0 true; PGet 2 0; PWrite 2 [3]; PWrite 1 [4]] in
+  let s := prun nput_code t in
+  p_held s 1%nat = Some 1%nat /\ p_held s 2%nat = Some 0%nat /\ p_out s 0%nat = [[[1]]] /\
+  p_buf s 1%nat = [[4]; [2]] /\ p_buf s 0%nat = [[3]] /\ p_pool s = [].
+Proof. vm_compute. repeat split; reflexivity. Qed.
+
+(* why the error path matters: were the writer handed back a second time when the handler has
+   returned a status >= 400, two later overlapping requests would own the same writer; one
+   response would lose its data and the other receive both requests' writes *)
+Example C18_pool_second_put_on_error_path_shares :
+  (let mid := prun nput_twice_on_error (firstn 7 double_put_trace) in
+   p_held mid 1%nat = Some 0%nat /\ p_held mid 2%nat = Some 0%nat) /\
+  (let s := prun nput_twice_on_error double_put_trace in
+   p_out s 1%nat = [] /\ p_out s 2%nat = [[[3]; [4]]]) /\
+  (let s := prun nput_code double_put_trace in
+   p_out s 1%nat = [[[2]; [4]]] /\ p_out s 2%nat = [[[3]]]).
+Proof. exact double_put_shares. Qed.
